@@ -126,6 +126,7 @@ type gen struct {
 	usedShort map[string]bool   // short type names in use (TS/OpenAPI use short names)
 
 	ruled         map[string]bool // messages that already carry rules
+	methodNames   map[string]bool // method names used by any service of the schema
 	firstSeg      map[string]bool // "VERB segment" literal first segments in use (schema-wide)
 	allowVarFirst bool            // the schema has a single route: a variable may be the first segment
 }
@@ -732,6 +733,9 @@ func (g *gen) annotate(m *Message, fq string, c *fieldCtx) {
 		flat := can("oneof_flat") && (!can("oneof_disc") || g.bool("oneofflat"))
 		o := g.addOneof(m, fq, c, true, flat)
 		o.Discriminator = pick(g, []string{"type", "kind", "tag_name", "@type"}, "disc")
+		if o.Discriminator == "@type" && g.avoid("ts_discriminator_nonidentifier") {
+			o.Discriminator = "objectType"
+		}
 		for c.used["json:"+strings.ToLower(o.Discriminator)] {
 			o.Discriminator += "x"
 		}
@@ -800,6 +804,15 @@ func (g *gen) newService(f *File, usedSvc map[string]bool, only bool) {
 		for usedM[mname] || g.usedShort[mname+"Request"] {
 			mname += "X"
 		}
+		if g.methodNames[mname] && g.avoid("same_method_name_across_services") {
+			for g.methodNames[mname] || usedM[mname] || g.usedShort[mname+"Request"] {
+				mname += "Y"
+			}
+		}
+		if g.methodNames == nil {
+			g.methodNames = map[string]bool{}
+		}
+		g.methodNames[mname] = true
 		usedM[mname] = true
 		m := &Method{Name: mname}
 		if p.Headers && (p.HeaderHeavy && !g.oneIn(3, "nomheaders") || !p.HeaderHeavy && g.oneIn(3, "mheaders")) {
